@@ -321,6 +321,12 @@ func behaviours(seed uint64) []Behaviour {
 	add("w500", clWritten, 500, probe.Spec{Code: 500, Writes: w(700)})
 	add("w503-70000-flush", clWritten, 503, probe.Spec{Code: 503, Writes: w(-30000, -40000)})
 	add("w200-ce-deflate", clWritten, 200, probe.Spec{Code: 200, Hdr: [][2]string{{"Content-Encoding", "deflate"}}, Writes: w(400)}).HandlerCE = "deflate"
+	// --- an interim response (103 Early Hints) first, then the real one
+	add("i103-w200", clWritten, 200, probe.Spec{Info: 103, Code: 200, Writes: w(300)})
+	add("i103-w404", clWritten, 404, probe.Spec{Info: 103, Code: 404, Writes: w(120)})
+	add("i103-w200-implicit", clWritten, 200, probe.Spec{Info: 103, Writes: w(50, 60)})
+	add("i103-ret404", clError, 404, probe.Spec{Info: 103, Ret: 404})
+	add("i103-ret503+err", clErrorErr, 503, probe.Spec{Info: 103, Ret: 503, Err: "scripted failure after early hints"})
 	// --- written with io.Copy (the way files are sent)
 	add("w200-copy-3000", clWritten, 200, probe.Spec{Code: 200, Copy: true, Writes: w(3000)})
 	add("w200-copy-cl-70000", clWritten, 200, probe.Spec{Code: 200, Copy: true, Hdr: [][2]string{{"Content-Length", "70000"}}, Writes: w(30000, 40000)})
